@@ -9,7 +9,7 @@ PROP = dict(
                     "fan-out <= 6, duplicate and empty names, empty / quoted / long values across 255 and 65535 bytes) x 12 format "
                     "strings of the three section styles x name flag sets, each rendered three ways (example-file layout, optional "
                     "whitespace removed, random blanks / blank lines / comment lines / trailing comments / CR LF) and read back; nesting, "
-                    "order, names, values and parent/prev links are compared; 40k / 500k further trees are written to a file and read 2-4 "
+                    "order, names, values and parent/prev links are compared; 30k / 400k further trees are written to a file and read 2-4 "
                     "times through one mpt::config_parser (open, read, reset or new open, read again; fresh or used result node), every "
                     "pass compared the same way; before 2/5 of the reads set_format() calls with an unknown style character (must be refused "
                     "and change nothing), in 1/3 of the cases an accepted format change on the used parser followed by a tree in the "
@@ -28,20 +28,24 @@ PROP = dict(
                            "decoration:comments": 240000, "decoration:blank-lines": 240000, "decoration:trailing-comments": 40000,
                            "decoration:crlf": 40000}),
               dict(name="c09_cxx", memcheck=500, src=["c09_cxx.cpp", "c09_tree.c"], libs=["mpt++", "mptio", "mptplot", "mptcore"], batch=512, lsan=True,
-                   floors={"parser::read": 100000, "parser::open": 45000, "config_parser::reset": 40000,
-                           "monitor:trees-equal:first-read": 40000, "monitor:trees-equal:after-reset": 40000,
-                           "monitor:trees-equal:after-reopen": 10000, "state:read-into-used-node": 15000,
-                           "style:prefix": 18000, "style:enclosed": 9000, "style:separated": 9000,
-                           "text:canonical": 10000, "text:compact": 10000, "text:noisy": 10000,
-                           "monitor:values-compared": 1000000, "monitor:names-compared": 1000000,
-                           "tree:depth>=3": 4000, "tree:with-value-250..260": 8000, "tree:with-value-65530..65540": 1000,
-                           "tree:last-top-level-element-is-option": 12000, "flags:config_parser-defaults": 3000,
-                           "monitor:trees-equal:read-after-refused-set_format": 35000, "monitor:trees-equal:after-format-change": 20000,
-                           "state:format-changed-on-used-parser": 8000, "config_parser::set_format": 90000,
-                           "open:refused": 18000, "monitor:trees-equal:read-after-refused-open": 18000,
-                           "monitor:trees-equal:reset+read-after-refused-open": 9000, "open:switched-to-other-file": 14000,
-                           "monitor:trees-equal:other-file": 20000, "open:closed": 4000, "open:unreadable-target-accepted": 10000,
-                           "monitor:descriptor-count-compared": 40000})],
+                   floors={"parser::read": 75000, "parser::open": 33750, "config_parser::reset": 30000,
+                           "monitor:trees-equal:first-read": 30000, "monitor:trees-equal:after-reset": 30000,
+                           "monitor:trees-equal:after-reopen": 7500, "state:read-into-used-node": 11250,
+                           "style:prefix": 13500, "style:enclosed": 6750, "style:separated": 6750,
+                           "text:canonical": 7500, "text:compact": 7500, "text:noisy": 7500,
+                           "monitor:values-compared": 750000, "monitor:names-compared": 750000,
+                           "tree:depth>=3": 3000, "tree:with-value-250..260": 6000, "tree:with-value-65530..65540": 750,
+                           "tree:last-top-level-element-is-option": 9000, "flags:config_parser-defaults": 2250,
+                           "monitor:trees-equal:read-after-refused-set_format": 26250, "monitor:trees-equal:after-format-change": 15000,
+                           "state:format-changed-on-used-parser": 6000, "config_parser::set_format": 67500,
+                           "open:refused": 13500, "monitor:trees-equal:read-after-refused-open": 13500,
+                           "monitor:trees-equal:reset+read-after-refused-open": 6750, "open:switched-to-other-file": 10500,
+                           "monitor:trees-equal:other-file": 15000, "open:closed": 3000, "open:unreadable-target-accepted": 7500,
+                           "monitor:descriptor-count-compared": 30000,
+                           "replace:in-place": 5250, "replace:rename": 5250, "replace:unlink-recreate": 5250,
+                           "monitor:trees-equal:reset-after-rename-replace": 4125, "monitor:trees-equal:reset-after-rewrite-in-place": 4125,
+                           "monitor:trees-equal:reset-after-unlink-recreate": 4125, "monitor:trees-equal:reopen-after-replace": 2625,
+                           "layout::reset": 3000, "monitor:layout-reset-after-rename-replace": 900})],
         rule=("case = (format string, section/option name flag sets, generated tree of sections, options and anonymous data); the tree is "
               "rendered canonically, compactly and with random decoration and each text is parsed into an empty root; non-trivial = "
               "the tree has at least 3 nodes and (except for the flat separated style) at least one section; distinct = 64-bit hash "
